@@ -264,8 +264,10 @@ Definition parse_payload (ty fl sid : N) (payload : list N) : rfc_result :=
 
 (* section 4.1 + 4.2: a frame whose Length exceeds the receiver's advertised
    SETTINGS_MAX_FRAME_SIZE is a FRAME_SIZE_ERROR -- decided from the Length field alone, the
-   payload need not be there; otherwise [bs] must be exactly one frame *)
-Definition rfc_parse_frame (max_frame_size : N) (bs : list N) : rfc_result :=
+   payload need not be there; otherwise [bs] must be exactly one frame.  [pp] is the grammar of
+   the payloads. *)
+Definition rfc_parse_frame_with (pp : N -> N -> N -> list N -> rfc_result) (max_frame_size : N) (bs : list N)
+  : rfc_result :=
   match bs with
   | l2 :: l1 :: l0 :: after_length =>
       let len := l2 * 65536 + l1 * 256 + l0 in
@@ -273,10 +275,39 @@ Definition rfc_parse_frame (max_frame_size : N) (bs : list N) : rfc_result :=
       match after_length with
       | ty :: fl :: s3 :: s2 :: s1 :: s0 :: payload =>
           if negb (len =? olen payload) then NotOneFrame
-          else parse_payload ty fl (u31_of s3 s2 s1 s0) payload
+          else pp ty fl (u31_of s3 s2 s1 s0) payload
       | _ => NotOneFrame
       end
   | _ => NotOneFrame
+  end.
+
+Definition rfc_parse_frame : N -> list N -> rfc_result := rfc_parse_frame_with parse_payload.
+
+(* The grammar as seen at the boundary of a frame codec.  An endpoint is free to apply a check in
+   whichever layer has the knowledge; two stream-identifier rules of section 6 concern frames whose
+   meaning is tied to stream state and are customarily applied above the codec:
+     6.4   RST_STREAM on stream 0x0   (PROTOCOL_ERROR) -- a matter of the stream layer,
+     6.10  CONTINUATION on stream 0x0 (PROTOCOL_ERROR) -- a matter of field block reassembly
+           (no block can be open on stream 0, since HEADERS / PUSH_PROMISE on stream 0 are refused).
+   At the codec boundary such a frame is handed up unchanged, to be refused there
+   ([deferred_to_upper_layer]); everything else is the grammar above. *)
+Definition parse_payload_codec (ty fl sid : N) (payload : list N) : rfc_result :=
+  if (ty =? T_RST_STREAM) && (sid =? 0) then
+    match payload with
+    | [a; b; c; d] => Accept (WRstStream 0 (u32_of a b c d))
+    | _ => Reject FRAME_SIZE_ERROR
+    end
+  else if (ty =? T_CONTINUATION) && (sid =? 0) then
+    Accept (WContinuation 0 (flag fl F_END_HEADERS) payload)
+  else parse_payload ty fl sid payload.
+
+Definition rfc_parse_frame_codec : N -> list N -> rfc_result := rfc_parse_frame_with parse_payload_codec.
+
+Definition deferred_to_upper_layer (w : wire_frame) : bool :=
+  match w with
+  | WRstStream s _ => s =? 0
+  | WContinuation s _ _ => s =? 0
+  | _ => false
   end.
 
 (* ---------------------------------------------------------------------------------------- *)
